@@ -388,11 +388,18 @@ func init() {
 		}
 		o.Oracle(Meta{Stage: "functions", Input: J{"GET": "/api/preferenceFunctions"}, GoOut: string(fb)}, okf, "GET /api/preferenceFunctions does not list a schema for each of the seven methods")
 
+		var history []string
+		unanswered := 0
 		send := func(m Meta, body []byte, expect int, what string) {
 			o.Cases++
+			history = append(history, truncate(string(body), 4000))
+			if len(history) > 6 {
+				history = history[1:]
+			}
 			st, resp, err := s.post(body)
 			if err != nil {
 				st = -1
+				unanswered++
 			}
 			var parsed map[string]interface{}
 			json.Unmarshal(resp, &parsed)
@@ -420,7 +427,7 @@ func init() {
 			ms.Stage = m.Stage + ":alive"
 			alive := s.alive()
 			if !alive {
-				ms.Input = J{"request": m.Input, "server_stderr_tail": s.stderrTail(3000)}
+				ms.Input = J{"request": m.Input, "preceding_request_bodies_oldest_first": append([]string{}, history...), "server_stderr_tail": s.stderrTail(3000)}
 			}
 			o.Oracle(ms, alive, "the server stopped answering after this request")
 			if !alive {
@@ -431,9 +438,12 @@ func init() {
 				}
 				return // never replay a server-killing body inside the harness process
 			}
-			ist, _ := decideJSON(body)
+			if err != nil {
+				return // unanswered over HTTP (already reported): never replay it inside the harness process
+			}
+			ist, _, timedOut := decideJSONTimeout(body, 5*time.Second)
 			ms.Stage = m.Stage + ":same-as-inprocess"
-			o.Oracle(ms, ist == st || ist == 500, "HTTP status differs from the in-process verdict for the same body")
+			o.Oracle(ms, !timedOut && (ist == st || ist == 500), "HTTP status differs from the in-process verdict for the same body")
 		}
 
 		// resource probes on a dedicated, disposable server (a stalled handler spins forever)
@@ -441,7 +451,7 @@ func init() {
 			stall := []byte(`{"preferenceFunction":"aspectEliminationHeuristic","criteria":[{"id":"c","type":"gain"}],"knownAlternatives":[{"id":"a","criteria":{"c":1}},{"id":"b","criteria":{"c":2}},{"id":"d","criteria":{"c":2}}],"choseToMake":["a","b","d"],"methodParameters":{"function":"idealAdditiveCoefficient","params":{"coefficient":1e-18,"minValue":0.5,"maxValue":1},"weights":{"c":1}}}`)
 			ps.client.Timeout = 3 * time.Second
 			_, _, perr := ps.post(stall)
-			ps.client.Timeout = 20 * time.Second
+			ps.client.Timeout = 8 * time.Second
 			var sj J
 			json.Unmarshal(stall, &sj)
 			o.Oracle(Meta{Stage: "resource:levels-series", Class: "levels-stall", Input: J{"request": sj}}, perr == nil, "no response within 3 s: aspiration series with coefficient 1e-18 does not make progress")
@@ -460,11 +470,55 @@ func init() {
 			o.Oracle(Meta{Stage: "resource:choquet-powerset:alive", Input: J{"request": big}}, ps.alive(), "server died on a choquet request with 40 criteria")
 			ps.stop()
 		}
-		for c := 0; o.Cases < n; c++ {
+		for c := 0; o.Cases < n && unanswered < 3; c++ {
 			q := genRequest(r, ReqOpts{MaxBiases: 2, Biases: []string{"criteriaOmission", "preferenceReversal", "fatigue", "anchoring"},
 				Methods: []string{"weightedSum", "owa", "choquetIntegral", "electreIII", "majorityHeuristic", "aspectEliminationHeuristic", "satisfactionHeuristic"}})
-			if ist, _ := decideJSON(q.JSON()); ist != 200 {
-				continue // base request must be valid
+			// boundary-heavy variants: series that run up to the documented bounds, ties at the best value
+			if q.Method == "aspectEliminationHeuristic" || q.Method == "satisfactionHeuristic" {
+				mp := q.Body["methodParameters"].(J)
+				if fn, _ := mp["function"].(string); fn != "thresholds" && r.chance(0.5) {
+					par := mp["params"].(J)
+					if q.Method == "aspectEliminationHeuristic" {
+						par["maxValue"] = 1
+						par["minValue"] = []float64{0, 0.5}[r.Intn(2)]
+					} else {
+						par["maxValue"] = 1
+						par["minValue"] = []float64{0.0625, 0.5}[r.Intn(2)]
+					}
+					ka := q.Body["knownAlternatives"].([]interface{})
+					if len(ka) >= 2 && r.chance(0.7) { // two alternatives tied at the ideal point
+						best := J{}
+						for _, cj := range q.Body["criteria"].([]interface{}) {
+							id := cj.(J)["id"].(string)
+							v := ka[0].(J)["criteria"].(J)[id].(float64)
+							for _, a := range ka {
+								w := a.(J)["criteria"].(J)[id].(float64)
+								if (cj.(J)["type"] == "cost") == (w < v) {
+									v = w
+								}
+							}
+							best[id] = v
+						}
+						ka[0].(J)["criteria"], ka[1].(J)["criteria"] = best, cloneJ(best)
+						q.Body["choseToMake"] = uniq(append(q.Problem.Chosen, ka[0].(J)["id"].(string), ka[1].(J)["id"].(string)))
+					}
+					o.count("boundary-series")
+				}
+			}
+			// the base request must be valid: asked through the server (never replayed in-process first)
+			bst, _, berr := s.post(q.JSON())
+			if berr != nil || !s.alive() {
+				m := Meta{Case: c, Stage: "valid:answered", Input: J{"request": q.Body, "preceding_request_bodies_oldest_first": append([]string{}, history...), "server_stderr_tail": s.stderrTail(3000)}, Key: string(q.JSON())}
+				o.Oracle(m, false, "a generated request got no answer or the server stopped answering after it")
+				o.meta.Flush()
+				s.stop()
+				if s2, err := startServer(dir); err == nil {
+					s = s2
+				}
+				continue
+			}
+			if bst != 200 {
+				continue
 			}
 			// valid request
 			m := Meta{Case: c, Stage: "valid", Input: J{"request": q.Body}, Key: string(q.JSON())}
